@@ -261,6 +261,13 @@ def finish(run, level, coverage, assumptions, kn, viol, confirm=None, extra=None
     rc = 0
     nviol = 0
     if viol:
+        hist = {}
+        for v in viol:
+            ev = v.get("event") or {}
+            k = "%s | %s" % (v["verdict"], ev.get("acc") or ev.get("entry") or ev.get("op") or ev.get("ev") or "")
+            hist[k] = hist.get(k, 0) + 1
+        for k, n in sorted(hist.items(), key=lambda x: -x[1])[:40]:
+            log("  rejected %6d x %s" % (n, k))
         os.makedirs(os.path.join(VERIF, "replays"), exist_ok=True)
         shown = 0
         for v in viol:
